@@ -48,7 +48,7 @@ class MCase:
         return self._spec
 
     def meta(self):
-        m = {"suite": "method", "kind": self.kind, "entry": self.entry, "line": self._line[:6000],
+        m = {"suite": "method", "kind": self.kind, "entry": self.entry, "line": self._line[:400000],
              "class": self.cls}
         m.update(self.extra)
         return m
